@@ -4,6 +4,11 @@ C11  Every AST node position is self-consistent and lies on its own token.
 proof   Props/C11: kernel decision over the regenerated action table x grammar that every node anchor is the first
         token (or the operator for the listed forms), placeholders excepted, and every token-map entry records its
         text at its own position (actions_anchor_ok, actions_cover_grammar).
+        Props/C11comp: the lifting to ALL runs of the parser model (tracking_invariant, node_anchor_ok,
+        tokmap_entries_ok, elision_runs_ok, node_positions_summary, parse_configs_reachable): every node built by any
+        reduce call of any reachable configuration is anchored at a shifted token of its own yield / records texts at
+        tokens carrying them; token-level hypotheses TokOK / SpellingOK are C06's conclusions (stated, not re-proved
+        for the parser-driven lexer).
 tie     S2b: ply driver + p_* actions + setpos  vs  Model.LR + Model.Actions(Gen.Actions) on recorded token traces:
         trees with positions, token maps and comments must be identical.
 judge   directly on the implementation's trees, with an independent ES5 line counter: self-consistency of
@@ -16,7 +21,8 @@ import proto
 import treedump
 from parts import parsetie, texts as T
 
-SPEC = dict(gen=['tables', 'actions'], props=['CalmVerif.Props.C11'], drivers=['drv_parse'], audit='Audit/C11.lean')
+SPEC = dict(gen=['tables', 'actions', 'lexdata'], props=['CalmVerif.Props.C11', 'CalmVerif.Props.C11comp'], drivers=['drv_parse'],
+            audit='Audit/C11.lean')
 
 OPERATOR_FORMS = {'BinOp': 'op', 'Assign': 'op', 'PostfixExpr': 'op', 'Conditional': '?', 'Comma': ',',
                   'DotAccessor': '.', 'BracketAccessor': '[', 'Label': ':'}
